@@ -6,7 +6,7 @@ pub struct Node {
     pub hash: Hash,
 }
 pub open spec fn node_wf(n: Node) -> bool {
-    forall|id: PartId| !(n.pending.contains(id) && n.completed.contains_key(id))
+    forall|id: PartId| #![trigger n.pending.contains(id)] #![trigger n.completed.contains_key(id)] !(n.pending.contains(id) && n.completed.contains_key(id))
 }
 /// What the node may do between two of our RPCs while no pay command for the hash is running:
 /// pending parts only resolve; a part completes only out of the pending set; a completed part
@@ -14,12 +14,14 @@ pub open spec fn node_wf(n: Node) -> bool {
 pub open spec fn node_rely(a: Node, b: Node) -> bool {
     &&& b.hash == a.hash
     &&& node_wf(b)
-    &&& (forall|id: PartId| b.pending.contains(id) ==> a.pending.contains(id))
-    &&& (forall|id: PartId| a.completed.contains_key(id) ==> (b.completed.contains_key(id) && b.completed[id] == a.completed[id]))
-    &&& (forall|id: PartId| b.completed.contains_key(id) ==> (a.completed.contains_key(id) || a.pending.contains(id)))
+    &&& (forall|id: PartId| #![trigger b.pending.contains(id)] b.pending.contains(id) ==> a.pending.contains(id))
+    &&& (forall|id: PartId| #![trigger a.completed.contains_key(id)] a.completed.contains_key(id) ==> (b.completed.contains_key(id) && b.completed[id] == a.completed[id]))
+    &&& (forall|id: PartId| #![trigger b.completed.contains_key(id)] b.completed.contains_key(id) ==> (a.completed.contains_key(id) || a.pending.contains(id)))
 }
+pub open spec fn gone(id: PartId, n: Node) -> bool { !n.pending.contains(id) && !n.completed.contains_key(id) }
+pub open spec fn listed(l: Seq<ListsendpaysPayments>, id: PartId) -> bool { exists|i: int| 0 <= i < l.len() && part_id(#[trigger] l[i]) == id }
 pub open spec fn nothing_live(n: Node) -> bool {
-    (forall|id: PartId| !n.pending.contains(id)) && (forall|id: PartId| !n.completed.contains_key(id))
+    (forall|id: PartId| #![trigger n.pending.contains(id)] !n.pending.contains(id)) && (forall|id: PartId| #![trigger n.completed.contains_key(id)] !n.completed.contains_key(id))
 }
 
 #[derive(Clone, Copy)]
@@ -56,10 +58,25 @@ impl<'a, F> PayFilterMap<'a, F> {
             r is Some ==> exists|i: int| 0 <= i < old(self).v@.len() && call_ensures(old(self).f, (&(#[trigger] old(self).v@[i]),), r),
     { unimplemented!() }
 }
+/// by-value iteration (`for payment in list`): env iterator with vstd's prophetic-iterator spec
+pub struct PayIntoIter { pub v: Vec<ListsendpaysPayments> }
+impl ::std::iter::Iterator for PayIntoIter {
+    type Item = ListsendpaysPayments;
+    #[verifier::external_body]
+    fn next(&mut self) -> (r: Option<ListsendpaysPayments>) { unimplemented!() }
+}
+impl vstd::std_specs::iter::IteratorSpecImpl for PayIntoIter {
+    open spec fn obeys_prophetic_iter_laws(&self) -> bool { true }
+    open spec fn remaining(&self) -> Seq<ListsendpaysPayments> { self.v@ }
+    open spec fn will_return_none(&self) -> bool { true }
+    open spec fn decrease(&self) -> Option<nat> { Some(self.v@.len()) }
+    open spec fn peek(&self, i: int) -> Option<ListsendpaysPayments> { if 0 <= i < self.v@.len() { Some(self.v@[i]) } else { None } }
+}
 impl ::std::iter::IntoIterator for PayList {
     type Item = ListsendpaysPayments;
-    type IntoIter = ::std::vec::IntoIter<ListsendpaysPayments>;
-    fn into_iter(self) -> (r: ::std::vec::IntoIter<ListsendpaysPayments>) { self.v.into_iter() }
+    type IntoIter = PayIntoIter;
+    #[verifier::external_body]
+    fn into_iter(self) -> (r: PayIntoIter) ensures r.v@ == self.v@ { unimplemented!() }
 }
 pub struct ListsendpaysResponse { pub payments: PayList }
 pub struct WaitsendpayRequest { pub groupid: Option<u64>, pub partid: Option<u64>, pub payment_hash: sha256::Hash, pub timeout: Option<u32> }
@@ -90,7 +107,7 @@ pub mod rpc {
             ensures node_rely(*old(n), *final(n)),
                 r is Ok ==> match request.status {
                     Some(ListsendpaysStatus::PENDING) =>
-                        (forall|id: PartId| final(n).pending.contains(id) ==> exists|i: int| 0 <= i < r->Ok_0.payments.v@.len() && part_id(#[trigger] r->Ok_0.payments.v@[i]) == id),
+                        (forall|id: PartId| final(n).pending.contains(id) ==> listed(r->Ok_0.payments.v@, id)),
                     Some(ListsendpaysStatus::COMPLETE) =>
                         (forall|id: PartId| final(n).completed.contains_key(id) ==> exists|i: int| 0 <= i < r->Ok_0.payments.v@.len()
                               && part_id(#[trigger] r->Ok_0.payments.v@[i]) == id && r->Ok_0.payments.v@[i].payment_preimage is Some)
@@ -104,6 +121,11 @@ pub mod rpc {
             requires node_wf(*old(n)), request.groupid is Some,
             ensures node_rely(*old(n), *final(n)), wait_fact((request.groupid->0, request.partid), r, *final(n));
     }
+}
+impl ::std::convert::From<rpc::RpcError> for AnyErr { #[verifier::external_body] fn from(e: rpc::RpcError) -> AnyErr { unimplemented!() } }
+impl vstd::std_specs::convert::FromSpecImpl<rpc::RpcError> for AnyErr {
+    open spec fn obeys_from_spec() -> bool { false }
+    open spec fn from_spec(v: rpc::RpcError) -> Self { arbitrary() }
 }
 pub mod futures_env {
     use super::*;
